@@ -403,6 +403,27 @@ func c13Scenarios(tier string) []engine.Scenario {
 		}
 		out = append(out, engine.Sharded(sc, 8)...)
 	}
+	// the application answers EventTwoFactorAdded / Removed itself (redirects to its own page)
+	{
+		sc := engine.Scenario{
+			Name: "email-auth=true,pre-authorised,app-2fa-handler", Depth: depth + 1,
+			Cfg: world.Config{Modules: []string{"auth", "remember", "logout", "totp2fa", "sms2fa", "recovery"}, EmailAuthRequired: true, App2FAHandler: true},
+			Init: func(s *world.Stack) *world.World {
+				w := world.NewWorld("B1", "B2")
+				flows.SeedAcct(s, w, flows.Acct{PID: U1, Password: P1})
+				flows.SeedAcct(s, w, flows.Acct{PID: U2, Password: P2, TOTPSecret: flows.TOTPSecrets[1], RecoveryCodes: []string{"ddddd-44444", "eeeee-55555"}})
+				flows.Exec(s, w, flows.Login(s, "B1", U1, P1, false), "")
+				flows.Exec(s, w, flows.VerifyStart(s, "B1", "totp"), "")
+				tok := w.Truth.Newest("vtok", U1, false)
+				flows.Exec(s, w, flows.VerifyEnd(s, "B1", "totp", tok.Val), "")
+				tok.Dead, tok.Used, tok.Why = true, true, "used"
+				return w
+			},
+			Model: c13Model, Monitor: c13Monitor, Cover: c13Cover,
+			Actions: c13Actions(true, false),
+		}
+		out = append(out, engine.Sharded(sc, 8)...)
+	}
 	// accounts that already have a factor: disabling, re-keying, from every session kind
 	for _, e500 := range []bool{false, true} {
 		if e500 && tier != "thorough" {
